@@ -337,7 +337,7 @@ def main(tier, seed):
     rep = run.Report('C13', tier, seed, TECHNIQUE)
     cap = 200 if tier == 'quick' else 3000
     units = [('routing',), ('limits',)]
-    depth = 2 if tier == 'quick' else 3
+    depth = 3 if tier == 'quick' else 4
     slices = ['expiry', 'tags', 'stats', 'counters', 'order']
     grid = []
     for i, shards in enumerate((1, 2, 3, 8, 13)):
